@@ -679,7 +679,7 @@ fn import_line<K: Kind>(m: &K::MR, data: &[u8]) -> String {
         Err(p) => format!("PANIC {p}"),
         Ok(Imported::HdrErr(e)) => format!("hdr=err:{e}"),
         Ok(Imported::Skipped(h, why)) => format!("hdr=ok {} skip={why}", h.show()),
-        Ok(Imported::Done(h, svs, Err(e))) => format!("hdr=ok {} sv={} imp=err:{e}", h.show(), join(&svs)),
+        Ok(Imported::Done(h, svs, Err(e))) => format!("hdr=ok {} sv={} mv={} imp=err:{e}", h.show(), join(&svs), K::num_vars(m)),
         Ok(Imported::Done(h, svs, Ok(fs))) => {
             let nvm = K::num_vars(m);
             let r = guarded(|| {
